@@ -342,6 +342,8 @@ func c18GenCase(r *zzverif.Rng, out *zzverif.Out) *c18Case {
 		c.seed = int(r.U64() >> 1)
 	case 3: // the seed space around the 32-bit boundary and the -1 sentinel's bit pattern
 		c.seed = c18SpecialSeed(r)
+	case 4: // the sentinel itself: an unseeded sampler (what api.DefaultOptions asks for)
+		c.seed = -1
 	default:
 		c.seed = r.Range(1, 1<<30)
 	}
@@ -600,12 +602,24 @@ func c18Spec(c *c18Case) Sampler {
 // the seeded generator delivers if this call reaches it.  Returns whether the call consumes a random
 // number (by the model's rule) and whether the oracle needs Go's sort order (pdqsort ties).
 func c18RunCall(out *zzverif.Out, c *c18Case, fix bool, realS *Sampler, r float32, line string, idx int, crafted bool) (consumed, needPre bool, result c18Result, stg *c18Stage) {
+	return c18RunCallG(out, c, fix, realS, r, line, idx, crafted, nil)
+}
+
+// c18RunCallG: as c18RunCall; with `given` the real call has already been made (unseeded sampler: the
+// number it drew is not observable, `r` is then a witness found afterwards by c18FindR).
+func c18RunCallG(out *zzverif.Out, c *c18Case, fix bool, realS *Sampler, r float32, line string, idx int, crafted bool, given *c18Result) (consumed, needPre bool, result c18Result, stg *c18Stage) {
 	n := len(c.logits)
 	out.Count("calls")
 	hasNaN := c18HasNaN(c.logits)
 	s := c18Spec(c)
 	if n == 0 {
-		res := c18CallSample(realS, c.logits)
+		var res c18Result
+		if given != nil {
+			res = *given
+		} else {
+			res = c18CallSample(realS, c.logits)
+		}
+		out.Count("br_empty_input")
 		out.Case(fmt.Sprintf("sample 0 0 %s %d %s %s %s 0 0", c18Bits(s.temperature), s.topK, c18Bits(s.topP), c18Bits(s.minP), c18Bits(r)), res.head)
 		return false, false, res, nil
 	}
@@ -760,8 +774,14 @@ func c18RunCall(out *zzverif.Out, c *c18Case, fix bool, realS *Sampler, r float3
 	}
 
 	// ---- the real call
-	res := c18CallSample(realS, c.logits)
+	var res c18Result
+	if given != nil {
+		res = *given
+	} else {
+		res = c18CallSample(realS, c.logits)
+	}
 	out.Count("res_" + strings.Fields(res.head)[0])
+	c18Branches(out, c, &s, L, kt, kp, km, status, res, stage)
 	fixFlag := c18FixMask()
 	preFlag := 0
 	if pre {
@@ -819,6 +839,177 @@ func c18RunCall(out *zzverif.Out, c *c18Case, fix bool, realS *Sampler, r float3
 		}
 	}
 	return consumed, pre, res, stage
+}
+
+// c18Branches counts, from what the REAL code did on this call, which branch of the anchored code (and
+// of the model the theorems talk about) was taken.  The check fails closed (`correspondence-coverage`)
+// when one of them is never taken in a run.
+func c18Branches(out *zzverif.Out, c *c18Case, s *Sampler, L []token, kt int, kp, km, status string, res c18Result, st *c18Stage) {
+	n := len(c.logits)
+	if s.temperature == 0 {
+		out.Count("br_greedy")
+		if res.err == nil && res.id > 0 {
+			out.Count("br_greedy_max_not_first")
+		}
+		return
+	}
+	if s.topK >= n || s.topK <= 0 {
+		out.Count("br_topk_sort")
+	} else {
+		// the heap replaced its root at least once iff a token from beyond the first k survived
+		replaced := false
+		for _, t := range L {
+			if int(t.id) >= s.topK {
+				replaced = true
+			}
+		}
+		if replaced {
+			out.Count("br_topk_heap_replace")
+		} else {
+			out.Count("br_topk_heap_keep")
+		}
+	}
+	if status == "" {
+		out.Count("br_all_neginf_before_draw")
+		return
+	}
+	if len(L) > 1 && L[0].value == L[1].value {
+		out.Count("br_shift_several_maxima")
+	}
+	ikp, e1 := strconv.Atoi(kp)
+	ikm, e2 := strconv.Atoi(km)
+	if e1 != nil {
+		return
+	}
+	switch {
+	case s.topP == 1:
+		out.Count("br_topp_shortcut")
+	case ikp < kt:
+		out.Count("br_topp_cut")
+	default:
+		out.Count("br_topp_no_cut")
+	}
+	if e2 != nil {
+		return
+	}
+	if ikm < ikp {
+		out.Count("br_minp_cut")
+	} else {
+		out.Count("br_minp_no_cut")
+	}
+	switch {
+	case res.err != nil && res.head == "err:nan":
+		out.Count("br_nan_guard")
+	case res.err == nil && st != nil:
+		pos := -1
+		for i, id := range st.ids {
+			if id == res.id {
+				pos = i
+				break
+			}
+		}
+		switch {
+		case pos == 0:
+			out.Count("br_pick_first")
+		case pos > 0 && pos == ikm-1:
+			out.Count("br_pick_last")
+		case pos > 0 && pos < ikm:
+			out.Count("br_pick_middle")
+		}
+	}
+}
+
+// c18FindR: for a call on an UNSEEDED sampler the number drawn from the process-wide generator cannot be
+// observed.  Given the id the real call returned, look for a numerator k such that r = k/2^24 makes the
+// pick land on that id (stages replicated with the real transforms; the landing index is monotone in k).
+// The model then has to return the same id for that r (`sample` op, L1).  No witness: r = 0.
+func c18FindR(c *c18Case, fix bool, res c18Result) (float32, bool) {
+	s := c18Spec(c)
+	if len(c.logits) == 0 || s.temperature == 0 || res.err != nil || res.pnc != nil {
+		return 0, true
+	}
+	W := topK(c18Toks(c.logits), s.topK)
+	if fix && !c18Shift(W) {
+		return 0, true
+	}
+	temperature(W, s.temperature)
+	softmax(W)
+	W = topP(W, s.topP)
+	ok := true
+	func() {
+		defer func() {
+			if recover() != nil {
+				ok = false
+			}
+		}()
+		W = minP(W, s.minP)
+	}()
+	if !ok || len(W) == 0 {
+		return 0, false
+	}
+	pos := -1
+	cum := make([]float32, len(W))
+	var sum float32
+	for i := range W {
+		if W[i].id == res.id && pos < 0 {
+			pos = i
+		}
+		sum += W[i].value
+		cum[i] = sum
+	}
+	if pos < 0 || sum != sum {
+		return 0, false
+	}
+	land := func(k int) int {
+		t := float32(k) / (1 << 24) * sum
+		return sort.Search(len(cum), func(i int) bool { return !(cum[i] < t) })
+	}
+	k := sort.Search(1<<24, func(k int) bool { return land(k) >= pos })
+	if k < 1<<24 && land(k) == pos {
+		return float32(k) / (1 << 24), true
+	}
+	return 0, false
+}
+
+// c18RunUnseeded: a history on a sampler built with the sentinel seed -1 (the default of
+// api.DefaultOptions): `rng` stays nil and every drawing call takes its number from the process-wide
+// generator.  Every admissibility clause is evaluated on every real result (L2); L1: the `newrng` op, and
+// per call the usual stage ops + the `sample` op with a witness number for which the model must return
+// the id the real call returned.
+func c18RunUnseeded(out *zzverif.Out, h *c18Hist, fix bool) {
+	line := h.line()
+	out.Count("cases")
+	out.Count("unseeded_histories")
+	realS := NewSampler(h.temp, h.k, h.p, h.mp, h.seed, nil)
+	out.Case(fmt.Sprintf("newsampler %s %d %s %s", c18Bits(h.temp), h.k, c18Bits(h.p), c18Bits(h.mp)),
+		fmt.Sprintf("%s %d %s %s", c18Bits(realS.temperature), realS.topK, c18Bits(realS.topP), c18Bits(realS.minP)))
+	out.Case(fmt.Sprintf("newrng %d", h.seed), c18RngKind(&realS))
+	if realS.rng != nil {
+		return
+	}
+	for j, logits := range h.calls {
+		c := &c18Case{temp: h.temp, p: h.p, mp: h.mp, k: h.k, seed: h.seed, logits: logits, weird: h.weird}
+		res := c18CallSample(&realS, append([]float32(nil), logits...))
+		out.Count("br_unseeded_call")
+		r, found := c18FindR(c, fix, res)
+		if found {
+			out.Count("unseeded_witness_found")
+		} else {
+			out.Count("unseeded_no_witness")
+			if !h.weird && !c18HasNaN(logits) {
+				out.L2("unseeded-result-unreachable", fmt.Sprintf("%s # call=%d", line, j),
+					fmt.Sprintf("%s: no number in [0,1) makes the pick land on this token of minP(topP(softmax(topK)))", res.head))
+			}
+		}
+		c18RunCallG(out, c, fix, nil, r, line, j, false, &res)
+	}
+}
+
+func c18RngKind(s *Sampler) string {
+	if s.rng == nil {
+		return "nil"
+	}
+	return "seeded"
 }
 
 var c18HistSeq int
@@ -1274,6 +1465,10 @@ func c18GenHist(r *zzverif.Rng, out *zzverif.Out) *c18Hist {
 
 // c18RunHist: one real Sampler, all calls on it; the generator state is threaded by the model's rule.
 func c18RunHist(out *zzverif.Out, h *c18Hist, fix bool) {
+	if h.seed == -1 {
+		c18RunUnseeded(out, h, fix)
+		return
+	}
 	line := h.line()
 	c18HistSeq++
 	large := false
@@ -1290,6 +1485,7 @@ func c18RunHist(out *zzverif.Out, h *c18Hist, fix bool) {
 	realS := NewSampler(h.temp, h.k, h.p, h.mp, h.seed, nil)
 	out.Case(fmt.Sprintf("newsampler %s %d %s %s", c18Bits(h.temp), h.k, c18Bits(h.p), c18Bits(h.mp)),
 		fmt.Sprintf("%s %d %s %s", c18Bits(realS.temperature), realS.topK, c18Bits(realS.topP), c18Bits(realS.minP)))
+	out.Case(fmt.Sprintf("newrng %d", h.seed), c18RngKind(&realS))
 	if realS.rng == nil {
 		out.L2("seed-ignored", line, "NewSampler returned a sampler without a seeded generator although seed != -1")
 		c18ReproFlat(out, h, line)
